@@ -6,8 +6,9 @@ CONSTANTS
   Types = {"result"}
   OpenKinds = {"plain", "smr", "resumed"}
   Cids = {"fresh", "empty", "dup"}
+  Attempts = {}
   IdRule = "replace"
-  MaxHist = 5
+  MaxHist = 4
 CONSTRAINT Bound
 ACTION_CONSTRAINT EmitBehaviour
 CHECK_DEADLOCK FALSE
